@@ -73,7 +73,7 @@ def REQUIRED(tier):
         "ring.in-ring": 180000 if q else 1500000, "ring.bridge": 35000 if q else 250000,
         "adjacency.atom": 180000 if q else 1500000,
         "match.pairs.exhaustive": 131760 if q else 131760 + 256 * 3078 + 1024 * 3198,
-        "match.decide": 131760, "substr.decide": 131760,
+        "match.decide": 131760, "substr.decide": 131760, "match.one-matcher-keyword": 20000,
         "match.expected-nonempty": 40000, "match.expected-empty": 60000,
         "recv.conn": 10000, "recv.mol": 10000, "recv.ens": 10000,
         "substr.ens": 35000,
@@ -397,10 +397,10 @@ def check_queries(ctx, x, kind, n, adj, salt, info0, gref):
 # ---------------------------------------------------------------------------------------------
 # matching on one receiver
 
-def results_of_match(ctx, op, x, pat, idx, bound, info):
+def results_of_match(ctx, op, x, pat, idx, bound, info, **kw):
     """tuples (pattern order) from x.match(pat); None if unusable"""
     try:
-        maps = take(x.match(pat), bound)
+        maps = take(x.match(pat, **kw), bound)
     except NotImplementedError:
         raise
     except Exception as e:  # noqa
@@ -463,6 +463,9 @@ def judge_embeddings(ctx, op, got, expected, padj, plab, tadj, tlab, decide, gen
             ctx.violation(f"{op}:generating-embedding-missing", generating=list(generating), **info)
 
 
+CHECK_MATCH_CALLS = [0]
+
+
 def check_match(ctx, x, kind, pat, idx, padj, plab, tadj, tlab, expected, info, decide=True, generating=None,
                 do_match=True, do_substr=True, tolerate_nie=False):
     bound = 2 * len(expected) + 8
@@ -474,6 +477,17 @@ def check_match(ctx, x, kind, pat, idx, padj, plab, tadj, tlab, expected, info, 
             got = results_of_match(ctx, "match" + sfx, x, pat, idx, bound, info)
             if got is not None:
                 judge_embeddings(ctx, "match" + sfx, got, expected, padj, plab, tadj, tlab, decide, generating, info)
+            # the two matcher keywords are independent: naming the library's own matcher for one of them (and leaving
+            # the other at its default) is the same query
+            CHECK_MATCH_CALLS[0] += 1
+            if CHECK_MATCH_CALLS[0] % 4 == 0:
+                for form, kw in (("node_match-given", {"node_match": type(x)._node_match}),
+                                 ("edge_match-given", {"edge_match": type(x)._edge_match})):
+                    ctx.count("match.one-matcher-keyword")
+                    opk = f"match{sfx}:{form}"
+                    got = results_of_match(ctx, opk, x, pat, idx, bound, info, **kw)
+                    if got is not None:
+                        judge_embeddings(ctx, opk, got, expected, padj, plab, tadj, tlab, decide, generating, info)
         if do_substr:
             op = ("substr-ens" if kind == "ens" else "substr") + sfx
             ctx.count("substr.decide" if decide else "substr.typed")
